@@ -235,6 +235,7 @@ func runUUID(e *Env) {
 	// ---- instants of the whole timestamp range, built and read back ----
 	n := 4 + tp.Next(21)
 	var years []int
+	prev := gocql.UUID{0xa5, 0x5a, 0xff, 0x0f, 0xf0, 0x33, 0xcc, 0x99, 0x66, 0xff, 0x00, 0xa5, 0x5a, 0x0f, 0xf0, 0xff}
 	for i := 0; i < n; i++ {
 		var t time.Time
 		switch tp.Next(4) {
@@ -264,6 +265,34 @@ func runUUID(e *Env) {
 			k.Violate("C19", "C19/print-parse-roundtrip", "ParseUUID(String()) of a time-UUID for %v returned err=%v, equal=%v", t.UTC(), err, p == u)
 			return
 		}
+		// the text and JSON decoders, into a variable that already holds another UUID
+		reused := prev
+		if err := reused.UnmarshalText([]byte(u.String())); err != nil || reused != u {
+			k.Violate("C19", "C19/print-parse-roundtrip", "UnmarshalText(%s) into a variable holding %s gave %s, err=%v", u, prev, reused, err)
+			return
+		}
+		reused = prev
+		if err := reused.UnmarshalJSON([]byte(`"` + u.String() + `"`)); err != nil || reused != u {
+			k.Violate("C19", "C19/print-parse-roundtrip", "UnmarshalJSON(%s) into a variable holding %s gave %s, err=%v", u, prev, reused, err)
+			return
+		}
+		prev = u
+		// any RFC 4122 version-1 UUID of this instant (arbitrary clock sequence and node) lies
+		// between the two bounds under Cassandra's order: timestamp, then the low eight bytes
+		// compared as signed bytes
+		x := u
+		for i := 8; i < 16; i++ {
+			x[i] = byte(tp.Next(256))
+		}
+		if tp.Chance(1, 3) {
+			x[9] = []byte{0x7f, 0x80, 0xff, 0x00}[tp.Next(4)]
+		}
+		x[8] = 0x80 | x[8]&0x3f
+		lo, hi := gocql.MinTimeUUID(t), gocql.MaxTimeUUID(t)
+		if lo.Timestamp() != u.Timestamp() || hi.Timestamp() != u.Timestamp() || uuidCassandraLess(x, lo) || uuidCassandraLess(hi, x) {
+			k.Violate("C19", "C19/min-max-not-bounds", "version-1 UUID %s of instant %v is not within [MinTimeUUID=%s, MaxTimeUUID=%s] under Cassandra's timeuuid order", x, t.UTC(), lo, hi)
+			return
+		}
 	}
 	sort.Ints(years)
 	k.Rec("instants checked=%d years=%s", n, fmt.Sprint(years))
@@ -282,3 +311,17 @@ var (
 	uuidEpoch      = time.Date(2000, 1, 1, 0, 0, 0, 0, time.UTC)
 	uuidEpochTicks = int64(time.Date(2000, 1, 1, 0, 0, 0, 0, time.UTC).Unix()-time.Date(1582, 10, 15, 0, 0, 0, 0, time.UTC).Unix()) * 10000000
 )
+
+// uuidCassandraLess orders two time-UUIDs the way Cassandra's TimeUUIDType does: by
+// timestamp, then by the remaining eight bytes as signed bytes.
+func uuidCassandraLess(a, b gocql.UUID) bool {
+	if ta, tb := a.Timestamp(), b.Timestamp(); ta != tb {
+		return ta < tb
+	}
+	for i := 8; i < 16; i++ {
+		if a[i] != b[i] {
+			return int8(a[i]) < int8(b[i])
+		}
+	}
+	return false
+}
